@@ -18,7 +18,7 @@ use crate::procmon::{self, Run, Scratch, StdinKind, StdoutKind};
 use crate::rng::Rng;
 
 pub const VOCAB: &[&str] = &[
-    "-f", "-t", "-fj", "-fjson", "-f=yaml", "-fy", "-ft", "-fm", "-ty", "-tj", "-tm", "-tt", "-tmsgpack", "-ttoml", "-t=y", "-tx", "-f=", "-fJSON", "j", "json", "yaml", "m", "bogus", "-h", "--help", "-V", "--version", "--help=x", "--version=1", "-hV", "-Vh", "-tV", "-hx", "--", "-", "-x", "--bogus", "--from", "-F", "good.json", "good.yaml", "good", "bad.json", "undet", "nullval.json", "missing.json", "dir", "", "deep.json", "bom", "-tyml", "-fyml", "note.t", "/proc/version",
+    "-f", "-t", "-fj", "-fjson", "-f=yaml", "-fy", "-ft", "-fm", "-ty", "-tj", "-tm", "-tt", "-tmsgpack", "-ttoml", "-t=y", "-tx", "-f=", "-fJSON", "j", "json", "yaml", "m", "bogus", "-h", "--help", "-V", "--version", "--help=x", "--version=1", "-hV", "-Vh", "-tV", "-hx", "--", "-", "-x", "--bogus", "--from", "-F", "good.json", "good.yaml", "good", "bad.json", "undet", "nullval.json", "missing.json", "dir", "", "deep.json", "bom", "-tyml", "-fyml", "note.t", "/proc/version", "caf\u{fffd}.json", "n\u{fffd}ant",
 ];
 
 pub fn files() -> BTreeMap<String, PathKind> {
@@ -41,6 +41,10 @@ pub fn files() -> BTreeMap<String, PathKind> {
     m.insert("bom".into(), PathKind::Regular("\u{feff}k: \u{65e5}\u{672c}\n".as_bytes().to_vec()));
     // an extension that is a format's one-letter ALIAS is not a recognised extension: content decides
     m.insert("note.t".into(), PathKind::Regular(b"{\"json\": [1, 2]}\n".to_vec()));
+    // names that are not valid UTF-8 (U+FFFD stands for the byte 0xE9, see procmon::os_name): one existing,
+    // translatable file with a telling extension, one name that does not exist
+    m.insert("caf\u{fffd}.json".into(), PathKind::Regular(b"{\"name\": \"not utf-8\"}\n".to_vec()));
+    m.insert("n\u{fffd}ant".into(), PathKind::Missing);
     // a regular file of the proc file system: it reports size 0, cannot be mapped, and still has content
     // (whatever it holds on this machine: the model runs the library on the same bytes)
     match std::fs::read("/proc/version") {
@@ -368,7 +372,7 @@ pub fn run(ctx: &Ctx) -> i32 {
         judge_delivery(&argv, bytes, &cuts, &StdoutKind::Pipe, acc);
     });
     acc.merge(b_acc);
-    let rule = format!("EVERY argument vector of length 0..={} over a {}-token vocabulary (-f/-t with every name and alias in attached, detached and '=' forms, repeated, missing value, invalid name; unknown short/long options; -h --help -V --version and clustered/valued forms; '--'; '-'; translatable / malformed / undetectable / unrepresentable / missing / directory / empty paths, a JSON file nested 200 000 deep, YAML behind a UTF-8 byte order mark, a file whose extension is a one-letter format alias, a procfs file (regular, reported size 0, not mappable, with content); the extension spelling 'yml' as an option value) plus {} random vectors of length 3-6 and every ordered pair of translatable inputs x every target; every vector of length 0..=1 and a sample of longer ones again with standard input an open directory (reads fail with EISDIR), with standard input a regular file at offset 0 or behind bytes already consumed, and with the process started under 6 other program names (argv[0] not valid UTF-8, empty, a path, with a space); each run with a pipe and (rotating) a file, a pseudo-terminal or /dev/full as stdout, stdin content rotating over translatable / malformed / empty; plus 10 multi-document streams (complete, or with a malformed / unrepresentable later document; up to 30 KiB) x named or detected source x 4 targets, trickling in on stdin in 2-4 bursts with pauses; distinct non-trivial = distinct argument vectors", exhaustive_len, v, n_random);
+    let rule = format!("EVERY argument vector of length 0..={} over a {}-token vocabulary (-f/-t with every name and alias in attached, detached and '=' forms, repeated, missing value, invalid name; unknown short/long options; -h --help -V --version and clustered/valued forms; '--'; '-'; translatable / malformed / undetectable / unrepresentable / missing / directory / empty paths, a JSON file nested 200 000 deep, YAML behind a UTF-8 byte order mark, a file whose extension is a one-letter format alias, a procfs file (regular, reported size 0, not mappable, with content), file names that are not valid UTF-8 (existing and missing); the extension spelling 'yml' as an option value) plus {} random vectors of length 3-6 and every ordered pair of translatable inputs x every target; every vector of length 0..=1 and a sample of longer ones again with standard input an open directory (reads fail with EISDIR), with standard input a regular file at offset 0 or behind bytes already consumed, and with the process started under 6 other program names (argv[0] not valid UTF-8, empty, a path, with a space); each run with a pipe and (rotating) a file, a pseudo-terminal or /dev/full as stdout, stdin content rotating over translatable / malformed / empty; plus 10 multi-document streams (complete, or with a malformed / unrepresentable later document; up to 30 KiB) x named or detected source x 4 targets, trickling in on stdin in 2-4 bursts with pauses; distinct non-trivial = distinct argument vectors", exhaustive_len, v, n_random);
     let mut extra = serde_json::Map::new();
     extra.insert("argv_exhaustive_up_to_length".into(), json!(exhaustive_len));
     ev::finish(
